@@ -16,6 +16,11 @@ def p_kernels(ctx):
     run_kernels(ctx, "safety")
 
 
+def p_thrift(ctx):
+    from ._thrift import p_thrift as f
+    f(ctx)
+
+
 def run(ctx):
     from ._callsites import p_callsites
-    return run_property(ctx, "proof", EXPLANATION, p_parts=[p_kernels, p_callsites], b_modules=[])
+    return run_property(ctx, "proof", EXPLANATION, p_parts=[p_kernels, p_callsites, p_thrift], b_modules=[])
